@@ -161,7 +161,13 @@ def run(ctx, build, verdict, ev):
     if mism:
         m = mism[0]
         verdict.add_broken("correspondence", f"term kernel {m[1]} ({m[0]} mode)", f"translated kernel over binary64 and implementation differ on {len(mism)} cases, first: {[(k, n, p, x, e) for k, n, p, x, e in mism[:3]]}")
+    import floatlaws  # exact (tolerance-free) oracles: mu_ok of Properties/C03e.v for the piecewise-linear terms
+
+    fx = floatlaws.terms(ctx, verdict, fl)
+    nviol += fx["exact_float_law_violations"]
     c = ev["coverage"]
+    c["exact_float_law_checks"] = fx["exact_float_law_checks"]
+    c["exact_float_laws"] = fx
     c["evaluations"] = evaluations
     c["distinct_nontrivial"] = len(nontrivial)
     c["rule"] = ("20 shape terms + Discrete x %d valid parameterisations each (both directions, vertical edges, infinite shoulders, heights 1/.5/.3/.75/1e-3/random) x "
